@@ -90,6 +90,10 @@ def run(run):
             batches.append(('columns w=4 n<=4', [col_template('num', 4), col_template('code', 4)], (1, 2, 3, 4)))
         else:
             batches.append(('columns w=4 n<=2', [col_template('num', 4), col_template('code', 4)], (2,)))
+        # WIDENED fields, every content: the all-ones pattern of the table width is an ordinary value there
+        batches.append(('widened columns 3 to 4 and 5 bits', [[201129, 1004], [201130, 1004]], (2,)))
+        if thorough:
+            batches.append(('widened column 3 to 7 bits by 207', [[207001, 1004]], (2,)))
         for label, templates, counts in batches:
             res = fm94.gen_run(wd, 'MC_' + safe(label), templates,
                                compressions=(True,), subset_counts=counts, slack=2, value_mode='all',
